@@ -21,6 +21,7 @@ let () =
     | "c10" -> Fam_canon.c10
     | "c17" -> Fam_serde.c17
     | "c18" -> Fam_serde.c18
+    | "c19" -> Fam_macro.run
     | _ -> prerr_endline ("unknown family " ^ fam); exit 2
   in
   let out = Buffer.create (1 lsl 16) in
